@@ -26,6 +26,22 @@ type mInode struct {
 	data  []byte
 	nlink int
 	nopen int
+	// sum is FNV-1a over data, maintained incrementally (Canon names big
+	// contents by length and sum instead of spelling them out)
+	sum uint64
+}
+
+const fnvOffset64, fnvPrime64 = 14695981039346656037, 1099511628211
+
+func fnvAdd(h uint64, b []byte) uint64 {
+	if h == 0 {
+		h = fnvOffset64
+	}
+	for _, c := range b {
+		h ^= uint64(c)
+		h *= fnvPrime64
+	}
+	return h
 }
 
 type mDesc struct {
@@ -148,6 +164,7 @@ func (m *Model) Append(lfd int, data []byte) error {
 	}
 	n := m.inodes[d.ino]
 	n.data = append(n.data, data...)
+	n.sum = fnvAdd(n.sum, data)
 	return nil
 }
 
@@ -244,7 +261,7 @@ func (m *Model) AtomicCreate(dir, name string, data []byte) error {
 	}
 	ino := m.nextIno
 	m.nextIno++
-	m.inodes[ino] = &mInode{nlink: 1, data: append([]byte(nil), data...)}
+	m.inodes[ino] = &mInode{nlink: 1, data: append([]byte(nil), data...), sum: fnvAdd(0, data)}
 	m.dirents[k] = ino
 	return nil
 }
@@ -354,7 +371,7 @@ func (m *Model) Clone() *Model {
 		c.dirents[k] = v
 	}
 	for k, v := range m.inodes {
-		c.inodes[k] = &mInode{data: v.data[:len(v.data):len(v.data)], nlink: v.nlink, nopen: v.nopen}
+		c.inodes[k] = &mInode{data: v.data[:len(v.data):len(v.data)], nlink: v.nlink, nopen: v.nopen, sum: v.sum}
 	}
 	for k, v := range m.descs {
 		if v.open { // closed descriptors carry no state the C14 model needs
@@ -392,7 +409,11 @@ func (m *Model) Canon() string {
 		inv[v] = ino
 	}
 	for v := 1; v < len(inv); v++ {
-		fmt.Fprintf(&b, "I%d=%q;", v, m.inodes[inv[v]].data)
+		if n := m.inodes[inv[v]]; len(n.data) > 256 {
+			fmt.Fprintf(&b, "I%d=#%d:%x;", v, len(n.data), n.sum)
+		} else {
+			fmt.Fprintf(&b, "I%d=%q;", v, n.data)
+		}
 	}
 	return b.String()
 }
